@@ -36,6 +36,7 @@ Definition S_ABBREV : nat := 2.   (* debug_abbrev_sec.stream *)
 Definition S_LINE : nat := 3.     (* debug_line_sec.stream *)
 Definition S_FRAME : nat := 4.    (* debug_frame_sec.stream *)
 Definition S_EH : nat := 5.       (* eh_frame_sec.stream *)
+Definition S_TYPES : nat := 12.   (* debug_types_sec.stream *)
 (* 6.. : debug_str, debug_line_str, debug_str_offsets, debug_addr, debug_loclists,
          debug_rnglists, debug_types: only reached through absolute reads nested in a
          parse ("effects") *)
@@ -62,8 +63,12 @@ Record die_raw := mk_raw {
 Record unit_hdr := mk_hdr {
   uh_size : Z;                        (* unit_length + initial_length_field_size() *)
   uh_abbrev : Z;                      (* debug_abbrev_offset *)
-  uh_pid : Z                          (* every header field: opaque *)
+  uh_pid : Z;                         (* every header field: opaque *)
+  uh_tsig : option Z                  (* type_signature of a DWARF v5 DW_UT_type / DW_UT_split_type unit *)
 }.
+
+(* a type unit of .debug_types: unit_length + initial_length_field_size(), signature, every header field *)
+Record tu_raw := mk_tu { tu_size : Z; tu_sig : Z; tu_pid : Z }.
 
 Record lp_raw := mk_lpraw {
   lr_end : Z;                         (* offset + unit_length + initial_length_field_size() *)
@@ -128,6 +133,7 @@ Record slevel := mk_sl { sl_die : nat; sl_pc : spc }.
 Inductive frame :=
 | FEmpty                                            (* no generator in this slot *)
 | FCUs (offset : Z)                                 (* DWARFInfo._parse_CUs_iter: local `offset` *)
+| FTUs (offset : Z)                                 (* DWARFInfo._parse_TUs_iter: local `offset` *)
 | FChildren (c : cframe)                            (* die.iter_children() *)
 | FSiblings (self : nat) (c : option cframe)        (* die.iter_siblings(): None = not started *)
 | FSubtree (stack : list slevel)                    (* cu.iter_DIEs(): innermost level first *)
@@ -150,35 +156,40 @@ Record state := mk_state {
   frames : list frame;
   (* the list of CFI entry objects the client got from its last CFI_entries() / EH_CFI_entries() call, one
      CFIEntry._decoded_table memo per entry (None = the client holds no list yet): (.debug_frame, .eh_frame) *)
-  cfis : option (list (option Z)) * option (list (option Z))
+  cfis : option (list (option Z)) * option (list (option Z));
+  (* DWARFInfo._type_units_by_sig: signature -> (0 = unit of .debug_types | 1 = type unit of .debug_info, offset, header) *)
+  tu_map : option (dict Z (Z * Z * Z))
 }.
 
 Definition init_state (nslots : nat) : state :=
-  mk_state [] [] [] [] [] [] None None (-1) (repeat 0 NSTREAMS) (repeat FEmpty nslots) (None, None).
+  mk_state [] [] [] [] [] [] None None (-1) (repeat 0 NSTREAMS) (repeat FEmpty nslots) (None, None) None.
 
 Definition set_cu_cache (s : state) (k : list Z) (o : list nat) : state :=
-  mk_state k o (cus s) (dies s) (abbrevs s) (lines s) (e_secmap s) (e_symmap s) (e_numtags s) (cur s) (frames s) (cfis s).
+  mk_state k o (cus s) (dies s) (abbrevs s) (lines s) (e_secmap s) (e_symmap s) (e_numtags s) (cur s) (frames s) (cfis s) (tu_map s).
 Definition set_cus (s : state) (v : list cu_obj) : state :=
-  mk_state (cu_keys s) (cu_objs s) v (dies s) (abbrevs s) (lines s) (e_secmap s) (e_symmap s) (e_numtags s) (cur s) (frames s) (cfis s).
+  mk_state (cu_keys s) (cu_objs s) v (dies s) (abbrevs s) (lines s) (e_secmap s) (e_symmap s) (e_numtags s) (cur s) (frames s) (cfis s) (tu_map s).
 Definition set_dies (s : state) (v : list die_obj) : state :=
-  mk_state (cu_keys s) (cu_objs s) (cus s) v (abbrevs s) (lines s) (e_secmap s) (e_symmap s) (e_numtags s) (cur s) (frames s) (cfis s).
+  mk_state (cu_keys s) (cu_objs s) (cus s) v (abbrevs s) (lines s) (e_secmap s) (e_symmap s) (e_numtags s) (cur s) (frames s) (cfis s) (tu_map s).
 Definition set_abbrevs (s : state) (v : dict Z Z) : state :=
-  mk_state (cu_keys s) (cu_objs s) (cus s) (dies s) v (lines s) (e_secmap s) (e_symmap s) (e_numtags s) (cur s) (frames s) (cfis s).
+  mk_state (cu_keys s) (cu_objs s) (cus s) (dies s) v (lines s) (e_secmap s) (e_symmap s) (e_numtags s) (cur s) (frames s) (cfis s) (tu_map s).
 Definition set_lines (s : state) (v : dict Z lp_obj) : state :=
-  mk_state (cu_keys s) (cu_objs s) (cus s) (dies s) (abbrevs s) v (e_secmap s) (e_symmap s) (e_numtags s) (cur s) (frames s) (cfis s).
+  mk_state (cu_keys s) (cu_objs s) (cus s) (dies s) (abbrevs s) v (e_secmap s) (e_symmap s) (e_numtags s) (cur s) (frames s) (cfis s) (tu_map s).
 Definition set_secmap (s : state) (v : option (dict Z Z)) : state :=
-  mk_state (cu_keys s) (cu_objs s) (cus s) (dies s) (abbrevs s) (lines s) v (e_symmap s) (e_numtags s) (cur s) (frames s) (cfis s).
+  mk_state (cu_keys s) (cu_objs s) (cus s) (dies s) (abbrevs s) (lines s) v (e_symmap s) (e_numtags s) (cur s) (frames s) (cfis s) (tu_map s).
 Definition set_symmap (s : state) (v : option (dict Z (list Z))) : state :=
-  mk_state (cu_keys s) (cu_objs s) (cus s) (dies s) (abbrevs s) (lines s) (e_secmap s) v (e_numtags s) (cur s) (frames s) (cfis s).
+  mk_state (cu_keys s) (cu_objs s) (cus s) (dies s) (abbrevs s) (lines s) (e_secmap s) v (e_numtags s) (cur s) (frames s) (cfis s) (tu_map s).
 Definition set_numtags (s : state) (v : Z) : state :=
-  mk_state (cu_keys s) (cu_objs s) (cus s) (dies s) (abbrevs s) (lines s) (e_secmap s) (e_symmap s) v (cur s) (frames s) (cfis s).
+  mk_state (cu_keys s) (cu_objs s) (cus s) (dies s) (abbrevs s) (lines s) (e_secmap s) (e_symmap s) v (cur s) (frames s) (cfis s) (tu_map s).
 Definition set_cur (s : state) (v : list Z) : state :=
-  mk_state (cu_keys s) (cu_objs s) (cus s) (dies s) (abbrevs s) (lines s) (e_secmap s) (e_symmap s) (e_numtags s) v (frames s) (cfis s).
+  mk_state (cu_keys s) (cu_objs s) (cus s) (dies s) (abbrevs s) (lines s) (e_secmap s) (e_symmap s) (e_numtags s) v (frames s) (cfis s) (tu_map s).
 Definition set_frames (s : state) (v : list frame) : state :=
-  mk_state (cu_keys s) (cu_objs s) (cus s) (dies s) (abbrevs s) (lines s) (e_secmap s) (e_symmap s) (e_numtags s) (cur s) v (cfis s).
+  mk_state (cu_keys s) (cu_objs s) (cus s) (dies s) (abbrevs s) (lines s) (e_secmap s) (e_symmap s) (e_numtags s) (cur s) v (cfis s) (tu_map s).
 
 Definition set_cfis (s : state) (v : option (list (option Z)) * option (list (option Z))) : state :=
-  mk_state (cu_keys s) (cu_objs s) (cus s) (dies s) (abbrevs s) (lines s) (e_secmap s) (e_symmap s) (e_numtags s) (cur s) (frames s) v.
+  mk_state (cu_keys s) (cu_objs s) (cus s) (dies s) (abbrevs s) (lines s) (e_secmap s) (e_symmap s) (e_numtags s) (cur s) (frames s) v (tu_map s).
+
+Definition set_tu_map (s : state) (v : option (dict Z (Z * Z * Z))) : state :=
+  mk_state (cu_keys s) (cu_objs s) (cus s) (dies s) (abbrevs s) (lines s) (e_secmap s) (e_symmap s) (e_numtags s) (cur s) (frames s) (cfis s) v.
 
 Fixpoint upd_nth {A} (n : nat) (f : A -> A) (l : list A) : list A :=
   match l, n with
@@ -206,6 +217,8 @@ Inductive op :=
 | CFI (eh : bool)                       (* entries = dwarfinfo.CFI_entries() / EH_CFI_entries(), kept by the client *)
 | CFIDecoded (eh : bool) (i : Z)        (* entries[i].get_decoded() on the list the client holds (fetched first if none) *)
 (* generators: created into a slot, advanced with Next *)
+| TUBySig (sig : Z)                     (* dwarfinfo.get_TU_by_sig8(sig) *)
+| NewIterTUs (slot : nat)               (* dwarfinfo.iter_TUs() *)
 | NewIterCUs (slot : nat)               (* dwarfinfo.iter_CUs() *)
 | NewIterDIEs (slot : nat) (u : Z)      (* get_CU_at(u).iter_DIEs() *)
 | NewIterChildren (slot : nat) (u o : Z)(* <DIE u o>.iter_children() *)
